@@ -290,7 +290,7 @@ def run(R, ctx):
     R.explanation = (
         "Necessary structural conditions of the incremental worker decided on MIR/THIR: fingerprint compared before work and over the "
         "whole configuration, every notification restarts dependents, deletions executed on every successful pass, nodes unlinked before "
-        "removal, who-may-shrink the dependency map, dependencies recorded on failure too. Histories themselves are not explored."
+        "removal, who-may-shrink the dependency map, dependencies recorded on failure too. Histories themselves are not explored. Decision / transfer functions among these are decided by finite-domain evaluation of their typed tree (sa/peval.py): every point of a small abstract domain is evaluated and compared with the reference; nothing is sampled and no program input exists."
     )
     R.assumptions += ["the fingerprint is only as fine as Configuration's Serialize output: see C19.keys / C19.filters"]
     roles = Roles(ctx)
